@@ -49,7 +49,7 @@ def wall(tier):
     return 90 if tier == "quick" else 1500
 
 
-def gen(seed: int, i: int, tier: str) -> dict:
+def _gen(seed: int, i: int, tier: str) -> dict:
     rng = random.Random(f"C06:{seed}:{i}")
     proto = rng.choice(G.PROTOS)
     tz, off = rng.choice(TZS)
@@ -120,6 +120,11 @@ def gen(seed: int, i: int, tier: str) -> dict:
         body.insert(min(at, len(body)), ["line", f"0;255;3;0;2;{proto}\n"])
     ops += body
     return {"cfg": cfg, "ops": ops}
+
+
+def gen(seed: int, i: int, tier: str) -> dict:
+    scn = _gen(seed, i, tier)
+    return G.maybe_tcp(random.Random(f"C06link:{seed}:{i}"), scn)
 
 
 def run(scn):
